@@ -194,3 +194,52 @@ func (w *World) freshCopyOf(v ssa.Value) ssa.Value {
 	}
 	return nil
 }
+
+// orArgs: call is cmp.Or(a, b, …) — the first argument that is not the zero value, the zero
+// value when all are — and its arguments in order (nil otherwise).
+func orArgs(call *ssa.Call) []ssa.Value {
+	if call == nil || stdCallee(&call.Call) != "cmp.Or" || len(call.Call.Args) != 1 {
+		return nil
+	}
+	return variadicElemsOrdered(call.Call.Args[0])
+}
+
+// variadicElemsOrdered: the elements of the implicit slice of a variadic call, by index
+// (nil unless every element is stored exactly once at a constant index).
+func variadicElemsOrdered(sl ssa.Value) []ssa.Value {
+	s, ok := sl.(*ssa.Slice)
+	if !ok {
+		return nil
+	}
+	arr, ok := s.X.(*ssa.Alloc)
+	if !ok {
+		return nil
+	}
+	byIdx := map[int64]ssa.Value{}
+	for _, r := range *arr.Referrers() {
+		ia, ok := r.(*ssa.IndexAddr)
+		if !ok {
+			continue
+		}
+		k, isK := constInt(ia.Index)
+		if !isK {
+			return nil
+		}
+		for _, r2 := range *ia.Referrers() {
+			if st, ok := r2.(*ssa.Store); ok && st.Addr == ssa.Value(ia) {
+				if _, dup := byIdx[k]; dup {
+					return nil
+				}
+				byIdx[k] = st.Val
+			}
+		}
+	}
+	out := make([]ssa.Value, len(byIdx))
+	for k, v := range byIdx {
+		if k < 0 || int(k) >= len(out) {
+			return nil
+		}
+		out[k] = v
+	}
+	return out
+}
